@@ -56,6 +56,21 @@ func (e *FaultSrv) Note(ctx context.Context, tok int) error {
 
 func (e *FaultSrv) Blob(ctx context.Context, b string) error { return nil }
 
+func (e *FaultSrv) NoteBoom(ctx context.Context, tok int) error {
+	e.hit(tok)
+	panic("note-boom")
+}
+
+// BadNoteCli: notification-tagged functions that run into the server's error paths (unknown
+// method, wrong number of params, a param that does not decode, a panicking method). A
+// notification never yields a response, whatever becomes of it.
+type BadNoteCli struct {
+	Missing  func(ctx context.Context, tok int) error  `notify:"true"`
+	Note     func(ctx context.Context, a, b int) error `notify:"true"`
+	Blob     func(ctx context.Context, n int) error    `notify:"true"`
+	NoteBoom func(ctx context.Context, tok int) error  `notify:"true"`
+}
+
 type FaultCli struct {
 	// the retry-tagged field comes first on purpose: tags must not leak to fields declared after it
 	EchoRetry func(ctx context.Context, tok int) (int, error) `retry:"true"`
@@ -398,7 +413,7 @@ func checkFaultWire(s *vsched.Sched, w *World, p Param) {
 			if f.Bad {
 				continue // truncated by the fault
 			}
-			if f.Method == "T.Note" && len(f.ID) > 0 && string(f.ID) != "null" {
+			if (f.Method == "T.Note" || f.Method == "T.Blob" || f.Method == "T.Missing" || f.Method == "T.NoteBoom") && len(f.ID) > 0 && string(f.ID) != "null" {
 				s.Violate("C04: notification frame carries an id: %s", f.Raw)
 			}
 			if f.Method == "T.Echo" && len(f.ID) > 0 {
@@ -440,6 +455,8 @@ func init() {
 				{Name: "ws-bigfirst", Bound: b, V: map[string]int{"ws": 1, "big": 70000}},
 				{Name: "ws-bigfirst-desc", Bound: b, V: map[string]int{"ws": 1, "big": 70000, "desc": 1}},
 				{Name: "ws-desc", Bound: b, V: map[string]int{"ws": 1, "desc": 1}},
+				// notifications that hit the server's error paths, next to the healthy calls
+				{Name: "ws-badnotes", Bound: b, V: map[string]int{"ws": 1, "badnotes": 1}},
 			}
 		},
 		Body: func(s *vsched.Sched, p Param) {
@@ -458,9 +475,27 @@ func init() {
 				s.Violate("HARNESS: setup: %v", err)
 				return
 			}
+			var bad BadNoteCli
+			if p.I("badnotes") == 1 {
+				// same connection kind, own connection: the wire check below covers every link
+				if _, err = w.WS("T", &bad, jsonrpc.WithPingInterval(0), jsonrpc.WithTimeout(0), jsonrpc.WithNoReconnect()); err != nil {
+					s.Violate("HARNESS: setup: %v", err)
+					return
+				}
+			}
 			obs := NewObs()
 			s.Teardown = w.Teardown
 			s.Finish = func() {
+				if p.I("badnotes") == 1 {
+					if v, ok := obs.Get("ret-badnotes"); !ok {
+						s.Violate("C04: notification-tagged calls that hit a server error path never returned; alive: %s", strings.Join(s.Alive(), " "))
+					} else if v != "<nil>/<nil>/<nil>/<nil>" {
+						s.Violate("C04: a notification-tagged call yielded something to its caller: %s", v)
+					}
+					if n := srv.Count(74); n != 1 {
+						s.Violate("C04: the (panicking) handler of a notification executed %d times (want exactly 1)", n)
+					}
+				}
 				for name, tok := range map[string]int{"plain": 60, "notify": 61, "retry": 62} {
 					v, ok := obs.Get("ret-" + name)
 					if !ok {
@@ -491,6 +526,15 @@ func init() {
 				v, err := cli.EchoRetry(context.Background(), 62)
 				obs.Set("ret-retry", "%d/%s", v, errClass(err))
 			})
+			if p.I("badnotes") == 1 {
+				s.Go("c-badnotes", func() {
+					e1 := bad.Missing(context.Background(), 70)
+					e2 := bad.Note(context.Background(), 71, 72)
+					e3 := bad.Blob(context.Background(), 73)
+					e4 := bad.NoteBoom(context.Background(), 74)
+					obs.Set("ret-badnotes", "%s/%s/%s/%s", errClass(e1), errClass(e2), errClass(e3), errClass(e4))
+				})
+			}
 		},
 	})
 }
